@@ -741,6 +741,16 @@ impl Parser {
             }
         }
 
+        if minus && matches!(lexem, Some(Lexem::Open) | Some(Lexem::CurlyOpen)) {
+            // a leading minus in front of a bracket negates the bracketed expression
+            self.drop_lexem();
+            let mut expr = self.parse_paren()?;
+            if let Some(ref mut expr) = expr {
+                expr.minus = !expr.minus;
+            }
+            return Ok(expr);
+        }
+
         match lexem {
             Some(Lexem::String(ref s)) => {
                 // a quoted literal is always text, even when it spells a column or a function
